@@ -94,6 +94,18 @@ def build_source(src, scratch, name='src.sgy'):
         out.update(ntraces=nT, hdr_classes=cls)
     else:
         raise ValueError(geom)
+    ih = src.get('interval_hdr')
+    if ih:
+        # the sample interval is recorded twice in a SEG-Y (binary header, every trace header); they may disagree or be absent in one place
+        with segyio.open(path, 'r+', strict=False, ignore_geometry=True) as f:
+            if ih == 'bin-zero':
+                f.bin[segyio.BinField.Interval] = 0
+            elif ih == 'bin-differs':
+                f.bin[segyio.BinField.Interval] = 2 * dt if 2 * dt < 32768 else dt // 2
+            elif ih == 'trace-zero':
+                for t in range(f.tracecount):
+                    h = f.header[t]
+                    h[117] = 0
     # O-SRC
     traces = gen.source_traces(path)
     headers = gen.source_headers(path)
